@@ -13,7 +13,7 @@ CFG = {
             "batches, SetHead to random heights followed by re-imports, Stop+reopen; archive / pruning (small TrieNodeLimit, "
             "TrieTimeLimit) / header-first (InsertHeaderChain on a second chain instance). After EVERY call the database is read back "
             "through the public accessors (GetCanonicalHash 0..max+2, GetTd, GetTxLookupEntry/GetTransaction/GetReceipt of every "
-            "transaction of the tree, GetBlock/GetHeader/GetBody/GetReceiptsByHash, head pointers, state availability) and (a) judged "
+            "transaction of the tree, GetBlock/GetHeader/GetBody/GetReceiptsByHash, head pointers, state availability; every node also BY HASH — GetHeaderByHash/GetBlockByHash/GetBody/GetTdByHash/HasHeader/HasBlock must agree with the (hash, number) accessors, and nodes are queried by hash BEFORE they are imported: queries are pure) and (a) judged "
             "directly against the statement of C03, (b) compared field by field with the Lean model replaying the same operations "
             "(every coin resolution followed, filtered by the observed state). 35% of the trees are 'race' trees (long light branch, "
             "shorter heavier branch) so that reorganisations to a SHORTER chain are frequent; 33 MIXED histories per run feed one chain through InsertChain and InsertHeaderChain (replayed on the composed "
